@@ -72,7 +72,8 @@ def reduced(alpha):
     return pick
 
 
-STYLES = [lambda n, v: n + b' = ' + v, lambda n, v: n + b'=' + v, lambda n, v: n + b' : ' + v, lambda n, v: n + b'\t=\t' + v + b'  ', lambda n, v: n + b' = ' + v + b' ; trailing comment']
+STYLES = [lambda n, v: n + b' = ' + v, lambda n, v: n + b'=' + v, lambda n, v: n + b' : ' + v, lambda n, v: n + b'\t=\t' + v + b'  ', lambda n, v: n + b' = ' + v + b' ; trailing comment',
+          lambda n, v: n.upper() + b' = ' + v, lambda n, v: n + b':' + v + b'\t;c', lambda n, v: n + b'  =' + v]
 
 
 def wrappers():
@@ -89,6 +90,11 @@ def wrappers():
         'nofinalnl': lambda L: (b'[snoopy]\n' + b'\n'.join(L)),
         'section_comment': lambda L: b'[snoopy] ; the section\n\n\n' + b''.join(l + b'\n\n' for l in L),
         'continuation': lambda L: b'[snoopy]\n' + b''.join(l + b'\n   continued text\n' for l in L),
+        'section_twice': lambda L: b'[snoopy]\n' + L[0] + b'\n[other]\nmessage_format = wrong2\noutput = stderr\n[snoopy]\n' + b''.join(l + b'\n' for l in L[1:]),
+        'leading_blanks': lambda L: b'[snoopy]\n \t' + L[0] + b'\n' + (b'[snoopy]\n  ' + b'\n[snoopy]\n  '.join(L[1:]) + b'\n' if len(L) > 1 else b''),
+        'upper_section': lambda L: b'[SNOOPY]\n' + b''.join(l + b'\n' for l in L),
+        'spaced_section': lambda L: b'[ snoopy ]\n' + b''.join(l + b'\n' for l in L),
+        'blank_lines_and_tabs': lambda L: b'\n\n\t\n[snoopy]\t\n\n' + b''.join(l + b'\n\n \n' for l in L),
     }
 
 
